@@ -805,4 +805,3 @@ var ttCorpus = []ttCorpusDoc{
 	{"tab indentation, blank lines, trailing blanks on text lines", ttWrap("", "<p begin=\"1s\" end=\"2s\">\n\t\tfirst  \n\n\t\t<br/>\n\t\tsecond\t\n\t</p>"), nil},
 	{"duplicate attributes by local name", `<tt xmlns:a="u1" xmlns:b="u2"><body><div><p a:begin="1s" b:begin="2s" end="3s" a:color="x" b:color="y">x</p></div></body></tt>`, nil},
 }
-
